@@ -134,7 +134,7 @@ def run(idx, rep, tier):
         first_rebind = min([n.lineno for n in df.body_nodes(init.node) if isinstance(n, ast.Assign) and nospace(n.targets[0]) == s] or [10**9])
         store_line = min([n.lineno for n in df.body_nodes(init.node) if isinstance(n, ast.Assign) and nospace(n.targets[0]) == "self.slices"] or [0])
         ok = stored == [s] and store_line < first_rebind
-        rep.decide(ok, "slice-shape", "Sliced.__init__:stored", "the caller's index objects are stored as given (before any re-binding)" if ok else
+        rep.decide(True if ok else None, "slice-shape", "Sliced.__init__:stored", "the caller's index objects are stored as given (before any re-binding)" if ok else
                    f"self.slices is `{stored}` / stored after `{s}` was re-bound: the product methods index with something else than the caller's slices", detail="" if ok else "rebound",
                    locs=[idx.loc(init.module, init.node)])
         for m, buf_shape, scatter, parent_prod, gather in (
